@@ -1,10 +1,16 @@
-(* C09 — property theorems only: each closed by [exact] of a lemma proved elsewhere. *)
-From Coq Require Import List String.
+(* C09 — property theorems only: each closed by [exact] of a lemma proved elsewhere.
+   Subject: Engine/Conc.v [run] — any number of threads (the SAME program terms [install] /
+   [upgrade] of Engine/Ops.v), EVERY schedule at single-effect granularity, EVERY cluster
+   behaviour [kh] (so cluster faults are included), atomic storage calls. *)
+From Coq Require Import List String Bool Arith.
 From Helm Require Import Engine.Types Engine.Eff Engine.Ops Engine.Cluster Engine.Seq Engine.SeqProofs
-                         Engine.Conc Engine.ConcProofs.
+                         Engine.Conc Engine.ConcProofs Engine.ConcLocal Engine.ConcProofsB
+                         Engine.ConcRG Engine.ConcRGProgs Engine.ConcC09.
+Import ListNotations.
 
-(* Every thread has returned when [run] ends: the interleaving interpreter is total and the
-   statements below are about quiescent states. *)
+(* Totality: when [run] ends every thread has returned (the statements below are about
+   quiescent states), and the gate-granularity runner that the harness replays is an
+   instance of [run]. *)
 Theorem C09_all_returned :
   forall (K : Type) (kh : forall e : eff, K -> K * resp e * list kev) (dresp : forall e, resp e) (A : Type)
          (ts : list (prog A)) (sch : list nat) (s : cstate K),
@@ -12,10 +18,169 @@ Theorem C09_all_returned :
 Proof. exact run_all_ret. Qed.
 Print Assumptions C09_all_returned.
 
-(* Revisions stay pairwise distinct under EVERY interleaving of ANY programs. *)
-Theorem C09_revisions_unique_any_schedule :
+Theorem C09_gated_schedules_are_schedules :
   forall (K : Type) (kh : forall e : eff, K -> K * resp e * list kev) (dresp : forall e, resp e) (A : Type)
          (ts : list (prog A)) (sch : list nat) (s : cstate K),
-    NoDup (revs (c_led s)) -> NoDup (revs (c_led (snd (run K kh dresp A ts sch s)))).
-Proof. exact run_revisions_unique. Qed.
-Print Assumptions C09_revisions_unique_any_schedule.
+    exists sch', run_gated K kh dresp A ts sch s = run K kh dresp A ts sch' s.
+Proof. exact run_gated_is_run. Qed.
+Print Assumptions C09_gated_schedules_are_schedules.
+
+(* Each revision is created by exactly one operation: for any number of concurrent installs
+   (without --atomic, whose failure path purges the history) and upgrades (without history
+   pruning), every schedule, every cluster behaviour, from any history with distinct revisions:
+   at most one create per revision ever succeeded, every revision of the final ledger that was
+   not there initially has exactly one creating thread, and created revisions are new and present. *)
+Theorem C09_unique_creator :
+  forall (K : Type) (kh : forall e : eff, K -> K * resp e * list kev) (dresp : forall e, resp e)
+         (rn ns : string) (ops : list op) (sch : list nat) (l0 : list release) (k : K),
+    Forall (fun o => match o with
+                     | OpInstall fl _ _ _ _ => f_atomic fl = false
+                     | OpUpgrade fl _ _ _ _ => f_max_history fl = 0
+                     | _ => False
+                     end) ops ->
+    NoDup (revs l0) ->
+    let res := run K kh dresp outcome (map (op_prog rn ns) ops) sch (mkC l0 k []) in
+    let tr := c_tr (snd res) in
+    NoDup (created_revs tr)
+    /\ (forall v, In v (revs (c_led (snd res))) -> ~ In v (revs l0) -> exists i, creators_of v tr = [i])
+    /\ (forall v, In v (created_revs tr) -> ~ In v (revs l0) /\ In v (revs (c_led (snd res)))).
+Proof. exact unique_creator. Qed.
+Print Assumptions C09_unique_creator.
+
+(* Losers are inert: an install or upgrade (ANY flags, manifest, hooks) running among ANY other
+   threads performs every mutating cluster effect (create / update / delete of release
+   resources) only after a create of ITS OWN that succeeded; hence a thread that created no
+   revision made no cluster mutation, and if its create was answered "exists" it returns the
+   already-exists error. *)
+Theorem C09_losers_are_inert :
+  forall (K : Type) (kh : forall e : eff, K -> K * resp e * list kev) (dresp : forall e, resp e)
+         (rn ns : string) (ts : list (prog outcome)) (sch : list nat) (l : list release) (k : K)
+         (i : nat) (o : op),
+    nth_error ts i = Some (op_prog rn ns o) ->
+    match o with OpInstall _ _ _ _ _ | OpUpgrade _ _ _ _ _ => True | _ => False end ->
+    let res := run K kh dresp outcome ts sch (mkC l k []) in
+    let tr := c_tr (snd res) in
+    mutations_guarded false (thread_events i tr) = true
+    /\ (thread_created i tr = false ->
+        thread_mutated i tr = false
+        /\ (thread_refused i tr = true ->
+            nth_error (outcomes outcome (fst res)) i = Some (Some (OErr EExistsRev)))).
+Proof. exact losers_are_inert. Qed.
+Print Assumptions C09_losers_are_inert.
+
+(* ... an upgrade whose history read shows a pending last revision returns "another operation
+   is in progress" having performed nothing but that read (on an empty history: "has no
+   deployed releases") ... *)
+Theorem C09_loser_sees_pending :
+  forall (K : Type) (kh : forall e : eff, K -> K * resp e * list kev) (dresp : forall e, resp e)
+         (rn ns : string) (ts : list (prog outcome)) (sch : list nat) (l : list release) (k : K)
+         (i : nat) fl cid vid mani hks,
+    nth_error ts i = Some (upgrade rn ns fl cid vid mani hks) ->
+    let res := run K kh dresp outcome ts sch (mkC l k []) in
+    let evs := thread_events i (c_tr (snd res)) in
+    exists h, first_history evs = Some h
+      /\ (forall last, max_rev_of h = Some last -> is_pending (st last) = true ->
+            nth_error (outcomes outcome (fst res)) i = Some (Some (OErr EPending)) /\ List.length evs = 1)
+      /\ (max_rev_of h = None ->
+            nth_error (outcomes outcome (fst res)) i = Some (Some (OErr ENoDeployed)) /\ List.length evs = 1).
+Proof. exact upgrade_loser_class. Qed.
+Print Assumptions C09_loser_sees_pending.
+
+(* ... and an install whose name check finds the name in use returns "cannot reuse a name
+   that is still in use" having performed nothing but that read. *)
+Theorem C09_loser_name_in_use :
+  forall (K : Type) (kh : forall e : eff, K -> K * resp e * list kev) (dresp : forall e, resp e)
+         (rn ns : string) (ts : list (prog outcome)) (sch : list nat) (l : list release) (k : K)
+         (i : nat) fl cid vid mani hks,
+    f_dry_run fl = false ->
+    nth_error ts i = Some (install rn ns fl cid vid mani hks) ->
+    let res := run K kh dresp outcome ts sch (mkC l k []) in
+    let evs := thread_events i (c_tr (snd res)) in
+    exists h, first_history evs = Some h
+      /\ (forall last, max_rev_of h = Some last ->
+            f_replace fl && (status_eqb (st last) SUninstalled || status_eqb (st last) SFailed) = false ->
+            nth_error (outcomes outcome (fst res)) i = Some (Some (OErr ENameInUse)) /\ List.length evs = 1).
+Proof. exact install_loser_class. Qed.
+Print Assumptions C09_loser_name_in_use.
+
+(* Quiescent well-formedness — proved for ANY number of operations (not only two), over the
+   FULL programs (no storage-skeleton fallback): installs without --replace and --atomic,
+   upgrades without --atomic and history pruning, every schedule, every cluster behaviour,
+   from any history with distinct revisions, at most one deployed, whose last revision is not
+   pending (this covers the empty and every deployed history): at the end revisions are
+   distinct and at most one is deployed. *)
+Theorem C09_quiescent_wf :
+  forall (K : Type) (kh : forall e : eff, K -> K * resp e * list kev) (dresp : forall e, resp e)
+         (rn ns : string) (ops : list op) (sch : list nat) (l0 : list release) (k : K),
+    Forall (fun o => match o with
+                     | OpInstall fl _ _ _ _ => f_replace fl = false /\ f_atomic fl = false
+                     | OpUpgrade fl _ _ _ _ => f_atomic fl = false /\ f_max_history fl = 0
+                     | _ => False
+                     end) ops ->
+    NoDup (revs l0) -> count_deployed l0 <= 1 -> lock_free l0 = true ->
+    let res := run K kh dresp outcome (map (op_prog rn ns) ops) sch (mkC l0 k []) in
+    NoDup (revs (c_led (snd res))) /\ count_deployed (c_led (snd res)) <= 1.
+Proof. exact quiescent_wf. Qed.
+Print Assumptions C09_quiescent_wf.
+
+(* The excluded flags are excluded for a reason.  --replace (K-C09-1, reproduced on the real
+   code): install --replace racing a plain install of a fresh name, object-store cluster, no
+   fault: both report success and two revisions are deployed. *)
+Theorem C09_quiescent_wf_replace_refuted :
+  exists (ops : list op) (sch : list nat),
+    Forall (fun o => match o with OpInstall fl _ _ _ _ => f_atomic fl = false | _ => False end) ops
+    /\ let res := run kstate (kube_handle "rel" "default") dead_resp outcome
+                      (map (op_prog "rel" "default") ops) sch (mkC [] (k0 []) []) in
+       outcomes outcome (fst res) = [Some OOk; Some OOk] /\ count_deployed (c_led (snd res)) = 2.
+Proof.
+  exists x_replace_ops, x_replace_sched. split; [repeat constructor|exact quiescent_wf_replace_refuted].
+Qed.
+Print Assumptions C09_quiescent_wf_replace_refuted.
+
+(* --atomic on upgrade: when the cluster rejects one request of the atomic upgrade, its
+   automatic rollback (which does not check for a pending revision) races the other upgrade. *)
+Theorem C09_quiescent_wf_atomic_refuted :
+  exists (ops : list op) (sch : list nat) (l0 : list release) (k : kstate),
+    Forall (fun o => match o with OpUpgrade fl _ _ _ _ => f_max_history fl = 0 | _ => False end) ops
+    /\ NoDup (revs l0) /\ count_deployed l0 <= 1 /\ lock_free l0 = true
+    /\ count_deployed (c_led (snd (run kstate (kube_handle "rel" "default") dead_resp outcome
+                                     (map (op_prog "rel" "default") ops) sch (mkC l0 k [])))) = 2.
+Proof.
+  exists x_atomic_ops, x_atomic_sched, x_dep, (mkK x_objs (Some (VCreate, "ConfigMap/c"%string)) None false).
+  split; [repeat constructor|]. destruct x_ok_hyps as [_ [_ [H1 [H2 H3]]]].
+  split; [exact H1|]. split; [exact H2|]. split; [exact H3|exact quiescent_wf_atomic_refuted].
+Qed.
+Print Assumptions C09_quiescent_wf_atomic_refuted.
+
+(* Non-vacuity: concrete operations on a deployed history meet all hypotheses; interleaved in
+   the window between reading the last revision and creating the next record, one wins and
+   the other gets "already exists" without having touched the cluster; read while the
+   winner's record is pending: "another operation is in progress"; install: name in use. *)
+Example C09_hypotheses_met :
+  Forall protocol_op x_ok_ops /\ Forall no_delete_op x_ok_ops
+  /\ NoDup (revs x_dep) /\ count_deployed x_dep <= 1 /\ lock_free x_dep = true.
+Proof. exact x_ok_hyps. Qed.
+Print Assumptions C09_hypotheses_met.
+
+Example C09_window_example :
+  let res := x_run x_ok_ops x_ok_sched x_dep (k0 x_objs) in
+  outcomes outcome (fst res) = [Some (OErr EExistsRev); Some OOk]
+  /\ map (fun r => (rev r, st r)) (c_led (snd res)) = [(1, SSuperseded); (2, SSuperseded); (3, SDeployed)]
+  /\ creations (c_tr (snd res)) = [(1, 3)]
+  /\ thread_mutated 0 (c_tr (snd res)) = false /\ thread_refused 0 (c_tr (snd res)) = true.
+Proof. exact x_ok_run. Qed.
+Print Assumptions C09_window_example.
+
+Example C09_pending_example :
+  let res := x_run x_ok_ops [1; 1; 1; 0] x_dep (k0 x_objs) in
+  outcomes outcome (fst res) = [Some (OErr EPending); Some OOk]
+  /\ List.length (thread_events 0 (c_tr (snd res))) = 1.
+Proof. exact x_pending_run. Qed.
+Print Assumptions C09_pending_example.
+
+Example C09_name_in_use_example :
+  let res := x_run [OpInstall x_fl0 9 9 [x_cm "a" "v9"] []; OpUpgrade x_fl0 5 5 [x_cm "a" "v5"] []] [1; 0] x_dep (k0 x_objs) in
+  outcomes outcome (fst res) = [Some (OErr ENameInUse); Some OOk]
+  /\ List.length (thread_events 0 (c_tr (snd res))) = 1.
+Proof. exact x_name_in_use_run. Qed.
+Print Assumptions C09_name_in_use_example.
